@@ -54,7 +54,7 @@ func (tgc *TCPGroupCtl) Listen(proxyName string, group string, groupKey string,
 		tgc.groups[group] = tcpGroup
 	}
 	tgc.mu.Unlock()
-	verifhook.At("group.lookedup", "kind", "tcp", "group", group, "obj", verifhook.ID(tcpGroup), "created", !ok, "member", proxyName)
+	verifhook.At("group.lookedup", "kind", "tcp", "group", group, "obj", verifhook.ID(tcpGroup), "created", !ok, "member", proxyName, "key", groupKey, "param", port)
 
 	return tcpGroup.Listen(proxyName, group, groupKey, addr, port)
 }
